@@ -3,8 +3,11 @@
    Result: `ok root=<n>` then per node `\tDefinition/SecDef,parent,left,right,TokenTypeName,<escaped text>` | `err` -/
 import Garnish.Driver.Proto
 import Garnish.Model.Parser
+import Garnish.Spec.Tree
+import Garnish.Spec.RefParse
 namespace Garnish.Driver
-open Garnish Garnish.Gen Garnish.Model.Parser
+open Garnish Garnish.Gen Garnish.Model.Parser Garnish.Spec
+
 
 /-- `TypeName,<escaped text>` → token (row/col are 0 as in the harness) -/
 def parseTokenField (s : String) : Option PToken :=
@@ -28,23 +31,134 @@ def showOptNat : Option Nat → String
   | none => "-"
   | some n => toString n
 
+/- further helpers live in their own namespace so that they cannot clash with the other suites' drivers
+   (`parseTokenField(s)` and `showOptNat` above are used by BuildDrv) -/
+namespace ParseAux
+
 def showNode (n : ParseNode) : String :=
   s!"\t{n.definition.name}/{n.secondaryDefinition.name},{showOptNat n.parent},{showOptNat n.left},{showOptNat n.right},{n.lexToken.type.name},{Garnish.Proto.escape n.lexToken.text}"
 
-def showParseOutcome (errclass : Bool) : Outcome ParseResult → String
-  | .ok r => r.nodes.foldl (fun acc n => acc ++ showNode n) s!"ok root={r.root}"
+def showParseOutcome (errclass : Bool) (tokidx : Bool := false) : Outcome ParseResult → String
+  | .ok r => r.nodes.foldl (fun acc n => acc ++ showNode n ++ (if tokidx then s!"@{n.lexToken.col}" else "")) s!"ok root={r.root}"
   | .err e => if errclass then s!"err {e.name}" else "err"
   | .panic site => s!"PANIC {site}"
   | .fuelOut => "FUELOUT"
 
-def parseCase (f : List String) : String :=
-  let fields := f.drop 2
-  let (errclass, fields) :=
-    match fields with
-    | "!errclass" :: rest => (true, rest)
-    | _ => (false, fields)
+/-- leading option fields `!errclass`, `!tokidx` -/
+def splitOptions : List String → Bool → Bool → Bool × Bool × List String
+  | "!errclass" :: rest, _, ti => splitOptions rest true ti
+  | "!tokidx" :: rest, ec, _ => splitOptions rest ec true
+  | fields, ec, ti => (ec, ti, fields)
+
+/-- token k gets row 0, column k (as in the harness' `!tokidx` mode) -/
+def numberTokens : List PToken → Nat → List PToken
+  | [], _ => []
+  | t :: rest, k => { t with col := k } :: numberTokens rest (k + 1)
+
+end ParseAux
+open ParseAux
+
+def parseCasePlain (f : List String) : String :=
+  let (errclass, tokidx, fields) := splitOptions (f.drop 2) false false
   match parseTokenFields fields with
   | none => "BAD-CASE"
-  | some tokens => showParseOutcome errclass (parse tokens)
+  | some tokens =>
+    let tokens := if tokidx then numberTokens tokens 0 else tokens
+    showParseOutcome errclass tokidx (parse tokens)
+
+/-! ### TREECHK: the verified proper-tree checker on a node dump (of the implementation)
+  case   TREECHK \t id \t root \t nNodes \t node.. \t tok..   node = `Definition/SecDef,parent,left,right,TokenType,text@k`
+  result proper=<b> inorder_sorted=<b> covers_significant=<b> missing=<i,..> extra=<i,..> tree=<s-expression> -/
+
+namespace ParseAux
+def parseOptNat (s : String) : Option (Option Nat) :=
+  if s == "-" then some none else s.toNat?.map some
+
+def splitOnChar (c : Char) (cs : List Char) : List (List Char) :=
+  let r := cs.foldr (fun x (acc : List Char × List (List Char)) =>
+    if x == c then ([], acc.1 :: acc.2) else (x :: acc.1, acc.2)) ([], [])
+  r.1 :: r.2
+
+/-- split the first `n` comma separated fields off -/
+def splitFields : Nat → List Char → List Char → List (List Char)
+  | 0, cur, cs => [cur.reverse ++ cs]
+  | _, cur, [] => [cur.reverse]
+  | n + 1, cur, c :: cs => if c == ',' then cur.reverse :: splitFields n [] cs else splitFields (n + 1) (c :: cur) cs
+
+def parseNodeField (s : String) : Option ParseNode :=
+  match splitFields 5 [] s.toList with
+  | [ds, p, l, r, tt, textk] =>
+    let dsl := splitOnChar '/' ds
+    -- the token index follows the last '@'
+    let rev := textk.reverse
+    let kRev := rev.takeWhile (· != '@')
+    let textRev := (rev.dropWhile (· != '@')).drop 1
+    match dsl, parseOptNat (String.ofList p), parseOptNat (String.ofList l), parseOptNat (String.ofList r),
+        TokenType.ofName? (String.ofList tt), (String.ofList kRev.reverse).toNat? with
+    | [d, sd], some p, some l, some r, some tt, some k =>
+      match Definition.ofName? (String.ofList d), SecDef.ofName? (String.ofList sd) with
+      | some d, some sd =>
+        some { definition := d, secondaryDefinition := sd, parent := p, left := l, right := r,
+               lexToken := { text := Garnish.Proto.unescape textRev.reverse, type := tt, row := 0, col := k } }
+      | _, _ => none
+    | _, _, _, _, _, _ => none
+  | _ => none
+
+def parseNodeFields : List String → Option (List ParseNode)
+  | [] => some []
+  | f :: rest =>
+    match parseNodeField f, parseNodeFields rest with
+    | some n, some ns => some (n :: ns)
+    | _, _ => none
+
+def showNats (l : List Nat) : String := ",".intercalate (l.map toString)
+
+/-- s-expression of the implementation's tree; a bracket node prints like the reference tree's `group` -/
+def renderTree (r : ParseResult) : Tree → String
+  | .nil => "-"
+  | .node l i k rt =>
+    let d := match r.nodes[i]? with
+      | some n => n.definition.name
+      | none => "?"
+    "(" ++ d ++ " " ++ toString k ++ " " ++ renderTree r l ++ " " ++ renderTree r rt ++ ")"
+
+end ParseAux
+
+def treechkCase (f : List String) : String :=
+  match f with
+  | _ :: _ :: root :: n :: rest =>
+    match root.toNat?, n.toNat? with
+    | some root, some n =>
+      match parseNodeFields (rest.take n), parseTokenFields (rest.drop n) with
+      | some nodes, some toks =>
+        let r : ParseResult := { root := root, nodes := nodes.toArray }
+        match toTree r with
+        | none => "proper=false inorder_sorted=- covers_significant=- missing= extra= tree=-"
+        | some t =>
+          let (missing, extra) := coverage r t.inorder (significant toks)
+          s!"proper=true inorder_sorted={inorderSorted t} covers_significant={missing.isEmpty && extra.isEmpty} missing={showNats missing} extra={showNats extra} tree={renderTree r t}"
+      | _, _ => "BAD-CASE"
+    | _, _ => "BAD-CASE"
+  | _ => "BAD-CASE"
+
+/-! ### REFPARSE: the reference parser (`Spec.refParse` with the generated table) on a token list (same syntax as PARSE)
+  result `ok <s-expression>` | `err <class>` -/
+def refparseCase (f : List String) : String :=
+  match parseTokenFields (f.drop 2) with
+  | none => "BAD-CASE"
+  | some tokens =>
+    match refParse Table.gen tokens with
+    | .ok t => "ok " ++ t.render
+    | .err e => s!"err {e.name}"
+    | .panic s => s!"PANIC {s}"
+    | .fuelOut => "FUELOUT"
+
+/-- PARSE suite. Until TREECHK / REFPARSE are registered as suites of their own they are also reachable as
+    `PARSE \t id \t !treechk \t root \t n \t ..` and `PARSE \t id \t !refparse \t tok..`. -/
+def parseCase (f : List String) : String :=
+  match f with
+  | s :: id :: "!treechk" :: rest => treechkCase (s :: id :: rest)
+  | s :: id :: "!refparse" :: rest => refparseCase (s :: id :: rest)
+  | _ => parseCasePlain f
 
 end Garnish.Driver
